@@ -20,3 +20,5 @@ def run(ctx):
     ctx.run.assume('Kani: std::mem::forget on heap values at the end of each harness (drop glue not explored); numbers outside the interoperable range excluded by the property')
     fam, cands, res = kani_family(ctx, 'order.axioms', 'the value order is one total order consistent with == (scalars; arrays compare lexicographically through Vec::cmp - std)', specs, ['json_value.rs'],
                                   timeout_s=900 if ctx.quick else 2400)
+    from ..conform import conformance
+    conformance(ctx, ['pipeline'])      # the references the obligations are stated against, compared with jawk::go on concrete runs (validates the oracles; never decides)
